@@ -2,6 +2,7 @@
 from rules import chk as K
 from rules import shell as S
 from rules import filtering as FL
+from rules import operators as OP
 
 
 def run(ctx):
@@ -15,6 +16,7 @@ def run(ctx):
     ctx.run(K.chk8_sum)
     ctx.run(S.erv1_final_pass)
     ctx.run(FL.flw25_decoded_once)
+    ctx.run(OP.tbl20_registry_forwards_null)
     return ctx.finish(
         'Static analysis (syntax tree + compiler MIR) of the finite chain that carries "checked" '
         'from the SQL operator to the scalar implementation: registry rows, who may build '
